@@ -236,6 +236,7 @@ def txCdsOf (cs ce : Option (List Int)) (cf : Option (List CDSFrame)) :
   | none, none => .ok none
   | some s, some e =>
     if s.length != e.length then .error .invalidCDS
+    else if s.length == 0 then .error .invalidCDS          -- transcript.py:89-90 (fix cb56bb9)
     else match cf with
       | none => .error .invalidCDS
       | some f => if f.length != s.length then .error .invalidCDS else .ok (some (s, e, f))
@@ -493,6 +494,7 @@ def vcFromDict (d : PyVal) : D VcObj := do
   let sname ← asOptStr (← getK .sequence_name d)
   let sguid ← asOptUuid (← getK .sequence_guid d)
   let guid ← asOptUuid (← getK .variant_collection_guid d)
+  if vs0.isEmpty then throw .invalidAnnotation   -- variants.py:355-356 (fix 7977ad0)
   let vs := sortVars vs0
   let q := importQuals quals
   let g ← guidOr guid (vcGuidOfObjs md5 vs name id sname q 0)
@@ -535,6 +537,14 @@ def getOpt (k : Key) : PyVal → PyVal
 
 def upperAscii (s : Str) : Str := s.map Char.toUpper
 
+/-- `SequenceType.sequence_type_str_to_type(type)`, reported as the upper-cased text (`None` for a falsy type) -/
+def typeUpper (ty : PyVal) : D (Option Str) :=
+  if truthy ty then (asStr ty).map fun s => some (upperAscii s) else pure none
+
+/-- `Strand[...]` when a strand is present, else the default of `seq_chunk_to_parent` -/
+def strandOrPlus (v : PyVal) : D Strand :=
+  if truthy v then lookupStrand v else pure Strand.plus
+
 /-- `convert_parent_dict_to_parent(vals)` -/
 def parentFromDict (v : PyVal) : D ParentDesc :=
   match v with
@@ -542,8 +552,7 @@ def parentFromDict (v : PyVal) : D ParentDesc :=
   | .dict _ => do
     let seq := getOpt .seq v
     let ty := getOpt .type v
-    -- `SequenceType.sequence_type_str_to_type(type)`
-    let tyU ← if truthy ty then (asStr ty).map fun s => some (upperAscii s) else pure none
+    let tyU ← typeUpper ty
     if truthy seq then
       let sq ← asStr seq
       let al ← asStr (getOpt .alphabet v)          -- `Alphabet[...]`; absent alphabet = the functions' default
@@ -551,7 +560,7 @@ def parentFromDict (v : PyVal) : D ParentDesc :=
         let name ← asStr (getOpt .sequence_name v)
         let s ← asInt (getOpt .start v)
         let e ← asInt (getOpt .end v)
-        let st ← if truthy (getOpt .strand v) then lookupStrand (getOpt .strand v) else pure Strand.plus
+        let st ← strandOrPlus (getOpt .strand v)
         pure (.chunk sq al name s e st)
       else
         let id ← asOptStr (getOpt .sequence_name v)
